@@ -312,8 +312,9 @@ func (e *c11Env) runRound(t *testing.T, k c11Knobs, seed int64) (obs c11Obs) {
 		kmu.Unlock()
 	}
 
-	var wg sync.WaitGroup
+	var wg, fwg sync.WaitGroup
 	start := make(chan struct{})
+	inlineFirst := false
 	switch k.Kind {
 	case "spawn-after-kill":
 		// one instance exists, is killed, and the callers spawn the name the moment Kill returned
@@ -323,7 +324,32 @@ func (e *c11Env) runRound(t *testing.T, k c11Knobs, seed int64) (obs c11Obs) {
 			t.Fatalf("initial spawn: %v", first.Err)
 		}
 		verifrt.WaitUntil(5*time.Second, func() bool { return c11Idle(first.pid) })
+		if rng.Intn(3) > 0 {
+			// a mass stop: the death watch has other terminations to process at the same time
+			nf := 4 + rng.Intn(12)
+			var fillers []string
+			for f := 0; f < nf; f++ {
+				fname := fmt.Sprintf("f%d-%d", e.roundN, f)
+				fr := mk(fname)
+				fr.dwell = 0
+				if _, err := e.sys.Spawn(bg, fname, &c11Inst{round: fr, id: f}, WithLongLived()); err != nil {
+					t.Fatalf("spawn filler: %v", err)
+				}
+				fillers = append(fillers, fname)
+			}
+			for _, fname := range fillers {
+				fwg.Add(1)
+				go func(fname string) {
+					defer fwg.Done()
+					_, _ = c11Guard(func() error { return e.sys.Kill(bg, fname) })
+				}(fname)
+			}
+			runtime.Gosched()
+		}
 		kill()
+		// the first caller spawns from this very goroutine, right after Kill returned
+		doCall(calls[0], 0)
+		inlineFirst = true
 	case "kill-race":
 		// one instance exists; a Kill runs concurrently with the callers
 		first := &c11Call{Caller: -1, API: "spawn", Name: nameA, Ctx: "live"}
@@ -342,6 +368,9 @@ func (e *c11Env) runRound(t *testing.T, k c11Knobs, seed int64) (obs c11Obs) {
 		}()
 	}
 	for i, c := range calls {
+		if i == 0 && inlineFirst {
+			continue
+		}
 		wg.Add(1)
 		go func(i int, c *c11Call) {
 			defer wg.Done()
@@ -351,7 +380,7 @@ func (e *c11Env) runRound(t *testing.T, k c11Knobs, seed int64) (obs c11Obs) {
 	}
 	close(start)
 	done := make(chan struct{})
-	go func() { wg.Wait(); close(done) }()
+	go func() { wg.Wait(); fwg.Wait(); close(done) }()
 	select {
 	case <-done:
 	case <-time.After(40 * time.Second):
